@@ -21,6 +21,27 @@ mod prefix_string;
 #[cfg(test)]
 mod tests;
 
+/// Verification hook (off unless built with `--cfg h3_verif`): exposes the private
+/// prefixed-integer and string-literal codecs to an external differential monitor.
+#[cfg(h3_verif)]
+pub mod verif_codec {
+    pub mod prefix_int {
+        pub use crate::qpack::prefix_int::{decode, encode, Error};
+    }
+    pub mod prefix_string {
+        pub use crate::qpack::prefix_string::{decode, encode, Error};
+    }
+}
+
+/// Verification hook (off unless built with `--cfg h3_verif`): exposes the stateful
+/// (dynamic table) encoder and decoder, which are otherwise only reachable under `cfg(test)`.
+#[cfg(h3_verif)]
+pub mod verif_stateful {
+    pub use crate::qpack::decoder::{ack_header, stream_canceled, Decoder};
+    pub use crate::qpack::dynamic::{DynamicTable, Error as DynamicTableError};
+    pub use crate::qpack::encoder::Encoder;
+}
+
 #[derive(Debug)]
 pub enum Error {
     Encoder(EncoderError),
